@@ -321,12 +321,29 @@ func c06Lifecycle(x *X, c *Chooser, depth int) {
 	renders := 0
 	var ops []string
 	for step := 0; step < depth; step++ {
-		k := c.Choose(13)
+		k := c.Choose(14)
 		if k == 0 {
 			break
 		}
 		x.Transition(1)
 		switch k {
+		case 13:
+			// a generator that, on its first call of a render, renders ANOTHER html wrapper (different table, own generator)
+			c.Logf("ht.SetRowClassGenerator(genN)   // genN renders a second html wrapper while ht is being rendered")
+			inner := thtml.New()
+			inner.AddHeaders("inner-h")
+			inner.AddRowItems("inner-v")
+			inner.AddRowItems("inner-w")
+			inner.SetRowClassGenerator(func(n int, ctx interface{}) template.HTMLAttr { return template.HTMLAttr(fmt.Sprintf("inner%d", n)) }, nil)
+			t.SetRowClassGenerator(func(n int, ctx interface{}) template.HTMLAttr {
+				calls = append(calls, n)
+				if len(calls) == 1 {
+					inner.Render()
+				}
+				return template.HTMLAttr(fmt.Sprintf("N%d", n))
+			}, nil)
+			in.gen, in.genVal, in.genTag = true, "", "N"
+			ops = append(ops, "genN(nested render)")
 		case 11, 12:
 			// the header replaced by a narrower / wider one
 			hs := [][]string{{"only"}, {"n1", "n2", "n3"}}[k-11]
@@ -429,7 +446,7 @@ func c06Lifecycle(x *X, c *Chooser, depth int) {
 }
 
 func runC06(x *X) {
-	x.Explore("wrapper-lifecycle", ExploreOpts{ShardDepth: 2, Bound: fmt.Sprintf("all sequences of <=%d operations {set generator A, set generator B, set caption, set id+class, add row, add separator, Render, RenderTo a writer failing at / half-way through its first Write, Render with a generator that panics, AddHeaders(1 cell), AddHeaders(3 cells)} on one long-lived wrapper", x.Pick(5, 6))}, func(c *Chooser) {
+	x.Explore("wrapper-lifecycle", ExploreOpts{ShardDepth: 2, Bound: fmt.Sprintf("all sequences of <=%d operations {set generator A, set generator B, set caption, set id+class, add row, add separator, Render, RenderTo a writer failing at / half-way through its first Write, Render with a generator that panics, AddHeaders(1 cell), AddHeaders(3 cells), a generator that renders another html wrapper from inside the render} on one long-lived wrapper", x.Pick(5, 6))}, func(c *Chooser) {
 		c06Lifecycle(x, c, x.Pick(5, 6))
 	})
 	var texts []string
